@@ -186,16 +186,20 @@ func enumerate(thorough bool) ([]scen, bounds) {
 			}
 		}
 	}
-	// B. <=2 deviations
+	// B. <=2 deviations (the longest sequences with loss and duplication only)
 	for _, ops := range sequences(b.SeqLen2) {
 		if !hasU(ops) {
 			continue
+		}
+		acts, extra := acts2, 2
+		if len(ops) >= 3 {
+			acts, extra = []world.Action{world.ActDrop, world.ActDup}, 1
 		}
 		for _, g := range b.Gaps {
 			if len(ops) == 1 && g != 0 {
 				continue
 			}
-			for _, m := range masksFor(ops, 2, acts2, 2) {
+			for _, m := range masksFor(ops, 2, acts, extra) {
 				add(scen{V: base, Ops: ops, Gap: g, Mask: m})
 			}
 		}
